@@ -335,12 +335,24 @@ func c13TcpOnce(cs string, try int) string {
 	if leftover > 0 {
 		ws = append(ws, [2]int{0, 3})
 	}
-	res := fmt.Sprintf("w=%s up=%s closed=%s", c13FmtW(ws, true), c13FmtInts(up.arrivedSorted()), b2s(eof))
+	res := fmt.Sprintf("w=%s up=%s closed=%s", c13FmtW(ws, true), c13FmtInts(c13OwnArrivals(up)), b2s(eof))
 	if stall {
 		c13Stalled()
 		res += " stall=1"
 	}
 	return res
+}
+
+// c13OwnArrivals: ids >= 900 belong to the timed scripts (hold=4), whose abandoned attempts may reach the shared
+// upstream late; they are not this case's business.
+func c13OwnArrivals(up *c13Upstream) []int {
+	var ids []int
+	for _, id := range up.arrivedSorted() {
+		if id < 900 {
+			ids = append(ids, id)
+		}
+	}
+	return ids
 }
 
 func c13TcpGen(r *rand.Rand, thorough bool, emit func(c, cat string)) {
